@@ -12,7 +12,7 @@ import (
 // never part of /repo).  Add-only: nothing here changes existing behaviour.
 
 func (s *Scalar) VerifSetMont(l [4]uint64) *Scalar { s.m = l; return s }
-func (s *Scalar) VerifMont() [4]uint64            { return s.m }
+func (s *Scalar) VerifMont() [4]uint64             { return s.m }
 func (s *Scalar) VerifPow2k(a *Scalar, k uint) *Scalar {
 	return s.pow2k(a, k)
 }
